@@ -37,7 +37,7 @@ def obligations(tier):
             o.append(Obl("driver_stream_%s_all_fragmentations" % name, "h_frag.c", d, unwind=2 * n + 4, timeout=1800, funcs=F,
                          desc="same stream with EVERY fragmentation (symbolic arrival sizes)", bounds="stream shape fixed, data bytes symbolic, all fragmentations", sample=smp))
     nd = 2 if tier == "quick" else 3
-    o.append(Obl("driver_symbolic_stream_le%d_all_fragmentations" % nd, "h_frag.c", {"MODE": "M_DRIVER", "MAXN": nd}, unwind=2 * nd + 4,
+    o.append(Obl("driver_symbolic_stream_le%d_all_fragmentations" % nd, "h_frag.c", {"MODE": "M_DRIVER", "MAXN": nd}, unwind=2 * nd + 4, unwindset=["ref_half_to_single_bits.0:12"],
                  timeout=300 if nd == 2 else 3600, mem_gb=8 if nd == 2 else 20, funcs=F,
                  desc="client loop on EVERY stream of <= %d bytes with every fragmentation" % nd, bounds="streams <= %d bytes" % nd))
     return o
